@@ -143,7 +143,8 @@ def payload_of(sh, v):
     prog = None
     for cid in m.get("calls", []):
         cm = sh.meta[cid]
-        prog = cm["prog"]
+        if prog is None or prog.get("k") == "Opaque":
+            prog = cm["prog"]
         c = cm["case"]
         calls.append({k: c[k] for k in ("op", "data", "start", "kw", "arg", "flt", "res")})
     return {"kind": "session", "clause": m.get("clause"), "prog": prog, "calls": calls, "verdict": v}
